@@ -2,10 +2,10 @@
 from common import *  # noqa
 import dbtie
 
-PROFILE = {'scenario_pref': ['shared_maps', 'torn_update', 'zones', 'same_count'], 'p_write': 0.55, 'writes': {'insert': 2, 'insert_multiple': 1, 'remove': 1, 'update': 6, 'update_all': 2, 'reindex': 0.5, 'reopen': 0.5, 'handle': 1.5}}
+PROFILE = {'scenario_pref': ['handle_unset', 'shared_maps', 'torn_update', 'zones', 'same_count'], 'p_write': 0.55, 'writes': {'insert': 2, 'insert_multiple': 1, 'remove': 1, 'update': 6, 'update_all': 2, 'reindex': 0.5, 'reopen': 0.5, 'handle': 1.5}}
 
 
 def main(tier, seed):
-    return dbtie.db_check("C03", tier, seed, PROFILE, 400, 6000, "Prop_C03",
+    return dbtie.db_check("C03", tier, seed, PROFILE, 650, 6000, "Prop_C03",
                           "user callables and re are an environment the theorems quantify over; the tie instantiates them with the twin table")
 
